@@ -82,6 +82,33 @@ theorem history_coherent (dim3 : Bool) (hl : dim3 = true → LawfulGeo V N) (vs 
     · rename_i s1 hs
       exact ih s1 h (step_coherent dim3 hl s0 s1 op hc0 hs)
 
+/-! ## "what a fresh build would give" is well defined -/
+
+/-- the fixes do not change `TriMesh::with_flags`: as written and fixed, it builds the same mesh -/
+theorem withFlagsW_eq_withFlags (dim3 : Bool) (vs : List V) (idx : List Tri) (f : Flags) :
+    (withFlagsW dim3 vs idx f : Built V N) = withFlags dim3 vs idx f :=
+  withFlagsW_eq dim3 vs idx f
+
+/-- **fresh is idempotent on its own buffers, whenever it leaves them alone**: if rebuilding a fresh mesh from
+its own buffers (same flags) does not change the buffers, it reproduces the mesh exactly — so "the derived data a
+fresh build would give" is `derive` of the buffers. -/
+theorem fresh_idem_of_stable (dim3 : Bool) (vs : List V) (idx : List Tri) (f : Flags) (s s2 : Mesh V N)
+    (h : withFlags dim3 vs idx f = .ok s) (h2 : withFlags dim3 s.vertices s.indices f = .ok s2)
+    (hv : s2.vertices = s.vertices) (hi : s2.indices = s.indices) : s2 = s :=
+  coherent_unique (withFlags_coherent dim3 _ _ f s2 h2) (withFlags_coherent dim3 _ _ f s h) hv hi
+    ((withFlags_flags h2).trans (withFlags_flags h).symm)
+
+/-- without `MERGE_DUPLICATE_VERTICES | DELETE_DEGENERATE_TRIANGLES | DELETE_DUPLICATE_TRIANGLES` the buffers of a
+fresh mesh are always stable (`delete_bad_topology_triangles` is idempotent): the core of `with_flags`
+(everything but the `indices.is_empty()` test) applied to the mesh's own buffers gives the mesh back. -/
+theorem fresh_idem_noMerge (dim3 : Bool) (vs : List V) (idx : List Tri) (f : Flags) (s : Mesh V N)
+    (hm : f.mergeFamily = false) (h : withFlags dim3 vs idx f = .ok s) :
+    buildCore dim3 s.vertices s.indices f = some s := by
+  obtain ⟨r, hs, hq⟩ := buildCore_eq_some (withFlags_eq_ok h).2
+  unfold buildCore
+  rw [setFlags_blank_noMerge_idem hm hs]
+  simp [hq]
+
 /-! ## the code as written on the pinned tree: where coherence fails
 
 A small exact geometry to evaluate the model on concrete meshes: vertices are integer points of the plane
@@ -199,6 +226,29 @@ theorem pinned_merge_failed_topology_survives :
       histW true [(0,0),(1,0),(0,1),(0,0)] [⟨0,1,3⟩] (fl 1) [.setFlags (fl 17)] = some s ∧
       ¬ Coherent true s ∧ s.vertices.length = 2 ∧ s.topology.map (·.vertices.length) = some 4 :=
   ⟨_, rfl, by decide, by decide, by decide⟩
+
+/-- with merging *and* deletion the buffers of a fresh mesh need not be stable: `merge_duplicate_vertices` numbers the
+vertices in order of first use by *any* triangle, including the ones it then deletes, so a vertex used only by a deleted
+(degenerate) triangle stays in the vertex buffer; a second build drops it.  The derived data are nevertheless those of
+the mesh's own buffers (`withFlags_coherent`). Flags 48 = MERGE | DELETE_DEGENERATE. -/
+theorem fresh_not_idem_with_deletion :
+    ∃ s s2 : Mesh Pt Int,
+      withFlags true [(0,0),(1,0),(0,1),(1,1)] [⟨0,0,1⟩, ⟨1,2,3⟩] (fl 48) = .ok s ∧
+      withFlags true s.vertices s.indices (fl 48) = .ok s2 ∧
+      s.vertices = [(0,0),(1,0),(0,1),(1,1)] ∧ s.indices = [⟨1,2,3⟩] ∧
+      s2.vertices = [(1,0),(0,1),(1,1)] ∧ s2.indices = [⟨0,1,2⟩] ∧ Coherent true s ∧ Coherent true s2 :=
+  ⟨_, _, rfl, rfl, by decide, by decide, by decide, by decide, by decide, by decide⟩
+
+/-- non-vacuity of `fresh_idem_noMerge` / `fresh_idem_of_stable`: a mesh with a triangle deleted by
+`DELETE_BAD_TOPOLOGY_TRIANGLES` (flags 7) and a merged mesh without deletion (flags 19) are rebuilt identically -/
+example : ∃ s : Mesh Pt Int,
+    withFlags true [(0,0),(1,0),(0,1),(1,1)] [⟨0,1,2⟩, ⟨0,1,3⟩] (fl 7) = .ok s ∧ s.indices.length = 1 ∧
+    withFlags true s.vertices s.indices (fl 7) = .ok s :=
+  ⟨_, rfl, by decide, rfl⟩
+example : ∃ s : Mesh Pt Int,
+    withFlags true [(0,0),(1,0),(0,1),(1,0),(0,1),(1,1)] [⟨0,1,2⟩, ⟨3,5,4⟩] (fl 19) = .ok s ∧ s.vertices.length = 4 ∧
+    withFlags true s.vertices s.indices (fl 19) = .ok s :=
+  ⟨_, rfl, by decide, rfl⟩
 
 /-- the same seven histories with the fixed operations end in coherent states (instances of `history_coherent`) -/
 example : ∃ s : Mesh Pt Int,
